@@ -4,7 +4,7 @@ evidence and replay files, known findings."""
 import os, sys, json, subprocess, time, hashlib, random, re, concurrent.futures
 
 VERIF = os.environ.get('VERIF_ROOT') or os.path.dirname(os.path.dirname(os.path.abspath(__file__)))   # normally /verif
-REPO = '/repo'
+REPO = os.environ.get('VERIF_REPO', '/repo')   # the checks read /repo; isolated background runs point this at a snapshot
 CARGO_TARGET = VERIF + '/.build/cargo'
 LEAN_DIR = VERIF + '/lean'
 DRIVER = LEAN_DIR + '/.lake/build/bin/driver'
